@@ -1,40 +1,14 @@
 import Driver.Proto
+import Muxide.Model.Validation
 /- Driver.Pure — model side of the X cases (pure public functions). -/
 namespace Driver
 open Muxide
 
 def b01 (b : Bool) : String := if b then "1" else "0"
 
-/-- `validate_video_config(..).is_valid` -/
-def validVideoConfig (w h : Nat) (fps : F64) : Bool :=
-  let dimsOk := ¬ (w = 0 ∨ h = 0) ∧ ¬ (w > 4096 ∨ h > 2160) ∧ ¬ (w < 320 ∨ h < 240)
-  let fpsBad := F64.le fps F64.zero || F64.lt (F64.ofNat 120) fps
-  dimsOk && !fpsBad
+def showV (r : VRes) : String := s!"{b01 r.valid}/{r.msgs}/{r.errs}"
 
-def validAudioConfig (c : ACodec) (rate ch : Nat) : Bool :=
-  match c with
-  | .none => true
-  | _ => ¬ (rate = 0 ∨ rate > 192000) ∧ ¬ (ch = 0 ∨ ch > 8)
-
-/-- `is_hevc_keyframe` -/
-def isHevcKeyframeChecked (d : Bytes) : Option Bool :=
-  some ((nals d).any (fun n => n ≠ [] && isHevcKeyNalType (hevcNalType n)))
-
-def validVideoFrame (c : VCodec) (d : Bytes) (key : Bool) : Option Bool :=
-  if d = [] then some false else
-  let det : Option Bool := match c with
-    | .h264 => some (isH264Keyframe d)
-    | .h265 => isHevcKeyframeChecked d
-    | .av1 => some (isAv1Keyframe d)
-    | .vp9 => some (match isVp9Keyframe d with | .ok b => b | _ => false)
-  det.map fun k => !(key && !k)
-
-def validAudioFrame (c : ACodec) (d : Bytes) : Bool :=
-  if d = [] then false else
-  match c with
-  | .aac _ => ¬ (d.length < 7) ∧ ¬ (byteAt d 0 ≠ 0xFF ∨ byteAt d 1 / 16 ≠ 0xF)
-  | .opus => isValidOpus d
-  | .none => false
+def optTok (s : String) : Option String := if s == "~" then none else some s
 
 def runX (ts : List String) : String :=
   match ts with
@@ -59,7 +33,7 @@ def runX (ts : List String) : String :=
     | some c => s!"{c.width}/{c.height}/{c.profile}/{c.bitDepth}/{c.colorSpace}/{c.transfer}/{c.matrix}/{c.level}/{c.fullRange}"
     | none => "none")
   | ["is_h264_key", d] => b01 (isH264Keyframe (unhex d))
-  | ["is_hevc_key", d] => (match isHevcKeyframeChecked (unhex d) with | some b => b01 b | none => "panic")
+  | ["is_hevc_key", d] => b01 (detectKeyframe .h265 (unhex d))
   | ["is_av1_key", d] => b01 (isAv1Keyframe (unhex d))
   | ["is_vp9_key", d] => (match isVp9Keyframe (unhex d) with
     | .ok b => b01 b | .tooShort => "short" | .badMarker => "marker")
@@ -77,11 +51,25 @@ def runX (ts : List String) : String :=
   | ["opus_count", d] => (match opusFrameCount (unhex d) with | some (n, v) => s!"{n}/{b01 v}" | none => "none")
   | ["opus_dur", t] => toString (opusTocSamples t.toNat!)
   | ["opus_cfg", ch, ps] => let c := ch.toNat!; s!"{c}/{if c > 2 then 1 else 0}/{ps}"
-  | ["validate_video_config", _, w, h, fps] => b01 (validVideoConfig w.toNat! h.toNat! (f64Tok fps))
-  | ["validate_audio_config", c, r, ch] => b01 (validAudioConfig (parseACodec c) r.toNat! ch.toNat!)
-  | ["validate_video_frame", c, d, k] => (match validVideoFrame (parseVCodec c) (unhex d) (k == "1") with
-    | some b => b01 b | none => "panic")
-  | ["validate_audio_frame", c, d] => b01 (validAudioFrame (parseACodec c) (unhex d))
+  | ["validate_video_config", _, w, h, fps] => showV (validateVideoConfig w.toNat! h.toNat! (f64Tok fps))
+  | ["validate_audio_config", c, r, ch] => showV (validateAudioConfig (parseACodec c) r.toNat! ch.toNat!)
+  | ["validate_video_frame", c, d, k] => showV (validateVideoFrame (parseVCodec c) (unhex d) (k == "1"))
+  | ["validate_audio_frame", c, d] => showV (validateAudioFrame (parseACodec c) (unhex d))
+  | ["validate_muxing", vc, w, h, fps, vf, vk, ac, sr, ch, af] =>
+    showV (validateMuxingConfig
+      ⟨(optTok vc).map parseVCodec, (optTok w).map (·.toNat!), (optTok h).map (·.toNat!), (optTok fps).map f64Tok,
+       (optTok vf).map fun d => (unhex d, vk == "1")⟩
+      ⟨(optTok ac).map parseACodec, (optTok sr).map (·.toNat!), (optTok ch).map (·.toNat!), (optTok af).map unhex⟩)
+  -- plain data builders and formatting: the model is the identity / a constant
+  | ["muxer_config", w, h, fps, ac, r, ch, fast, md] => s!"{w}/{h}/{fps}/{if ac == "cnone" || ac == "~" then "none" else ac ++ ":" ++ r ++ ":" ++ ch}/{fast}/{md}"
+  | ["metadata_now"] => "some"
+  | ["plain_ctors", a, b] =>
+    -- `AvcConfig::new(a, b)` / `HevcConfig::new(b, a, b)` and their accessors (`get(i)` with a default)
+    let sps := unhex a
+    let g (i dflt : Nat) : Nat := match sps[i]? with | some x => x.toNat | none => dflt
+    let b3 : Option Nat := (sps[3]?).map (·.toNat)
+    s!"{hex sps}/{hex (unhex b)}/0/{g 1 66}/{g 2 0}/{g 3 31}/{(b3.map (· / 64 % 4)).getD 0}/{(b3.map (· / 32 % 2)).getD 0}/{(b3.map (· % 32)).getD 1}/{g 14 93}"
+  | ["error_display", _] => "ok"
   | _ => "unmodelled"
 
 end Driver
